@@ -1,22 +1,95 @@
 """Obligation families that are not per-method interface clauses: algebraic laws, fp64 routing,
 JSON round trip, cross-reference check, user-function wrappers, pickle hooks, numpy layer, accessors."""
 
+import importlib
+
+from . import smt
+
+MODULES = {
+    "law": "laws",
+    "c17": "c17",
+    "c16": "c16",
+    "fp64": "fp64",
+    "json": "jsonob",
+    "c11": "c11",
+    "ctor": "ctor",
+    "c13": "c13",
+    "c03": "c03",
+    "native": "nativeob",
+    "lean": "leanob",
+    "syn": "syntactic",
+}
+
+
+def _mods():
+    for kind, name in MODULES.items():
+        try:
+            yield kind, importlib.import_module("." + name, __package__)
+        except ImportError as e:
+            if name not in str(e):
+                raise
+
 
 def tasks_for(prop, tier):
     ts = []
-    try:
-        from . import laws
-
-        ts += laws.tasks_for(prop, tier)
-    except ImportError:
-        pass
+    for kind, m in _mods():
+        ts += m.tasks_for(prop, tier)
     return ts
 
 
 def run_task(P, task, prop, tier, out):
     kind = task[0]
-    if kind == "law":
-        from . import laws
+    m = importlib.import_module("." + MODULES[kind], __package__)
+    return m.run_task(P, task, prop, tier, out)
 
-        return laws.run_task(P, task, prop, tier, out)
-    raise ValueError(f"unknown task {task}")
+
+def record(out, prop, fn_qual, clause, path, variant, vc, tier="quick", describe=None):
+    """discharge a VC and append a record in the common format"""
+    smt.discharge(vc, tier, want_model=getattr(vc, "inputs", None))
+    rec = {
+        "obligation": f"{prop}/{fn_qual}/{clause}",
+        "function": fn_qual,
+        "clause": clause,
+        "path": path,
+        "variant": variant,
+        "verdict": vc.verdict,
+        "backend": vc.backend,
+        "seconds": round(vc.seconds, 4),
+        "hyps": len(vc.hyps),
+        "instances": vc.n_instances,
+        "reason": vc.reason,
+    }
+    if vc.verdict == "sat":
+        rec["model"] = getattr(vc, "model_values", {})
+        try:
+            rec["model_text"] = str(vc.model)[:3000]
+        except Exception:
+            rec["model_text"] = ""
+    out["records"].append(rec)
+    return rec
+
+
+def record_fact(out, prop, fn_qual, clause, ok, detail="", backend="syntactic/ast"):
+    """an obligation decided by a syntactic / structural check over the AST (no solver)"""
+    out["records"].append(
+        {
+            "obligation": f"{prop}/{fn_qual}/{clause}",
+            "function": fn_qual,
+            "clause": clause,
+            "path": "p0",
+            "variant": "syntactic",
+            "verdict": "unsat" if ok else "sat",
+            "backend": backend,
+            "seconds": 0.0,
+            "hyps": 0,
+            "instances": 0,
+            "reason": detail,
+            "model": {"detail": detail} if not ok else {},
+        }
+    )
+
+
+def add_function(out, fi, variant="", paths=0, vcs=0):
+    d = fi.describe()
+    d.update({"variant": variant, "paths": paths, "vcs": vcs})
+    out["functions"].append(d)
